@@ -50,7 +50,7 @@ def elem_kinds(g):
 
 
 NULL_OK = {"packed", "wide", "char", "wchar", "enum", "flag", "leb", "intstruct", "ptr"}
-FORMS = ["fixed0", "fixed1", "fixedk", "expr", "exprneg", "exprconst", "exprsizeof", "exprenum", "null", "eof"]
+FORMS = ["fixed0", "fixed1", "fixedk", "fixedneg", "expr", "exprneg", "exprconst", "exprsizeof", "exprenum", "null", "eof"]
 
 
 def matrix_case(rng, ek, form):
@@ -84,6 +84,10 @@ def matrix_case(rng, ek, form):
         ln = L_expr("n")
     elif form == "fixed0":
         ln = L_fixed(0)
+    elif form == "fixedneg":
+        # a constant count below zero (a literal, a constant expression): no entries, like a computed one
+        k = rng.choice([-1, -2, -200])
+        ln = {"f": "fixed", "n": k, "text": rng.choice([str(k), f"2 - {2 - k}", f"({k})"])}
     elif form == "fixed1":
         ln = L_fixed(1)
     elif form == "fixedk":
@@ -122,7 +126,7 @@ def write_refusal(ctx, case, cfgd, cfg, T, rng):
             v = model.random_value(top, rng, cfg)
         except model.ModelUnsupported:
             return
-        n = t["len"]["n"]
+        n = max(0, t["len"]["n"])      # (a constant count below zero means no entries)
         extra = model.random_value(t["elem"], rng, cfg, v)
         wrong = v[f["name"]] + [extra] if rng.random() < 0.5 or n == 0 else v[f["name"]][:-1]
         v[f["name"]] = wrong
